@@ -4,6 +4,7 @@
    F <h> <w> <sc> <prim> <state>
         -> new_frame (BoolGridFrame(solver, h, w)) then post_crossable
    G <H> <W>  -> the auxiliary graph: n : a b a b ...
+   S <h> <w> <sc> <hbits> <vbits> -> crossable_spec_b, visited bits, crossing bits
    reply:  OK <state> P <expr list> Q <expr list>   |   E <code> *)
 open Model
 open Zutil
@@ -37,6 +38,14 @@ let handle toks = match toks with
       let g = split_graph (nat_of_int (int_of_string h)) (nat_of_int (int_of_string w)) in
       string_of_int (int_of_nat g.nv) ^ " :" ^
       String.concat "" (List.map (fun (a, b) -> " " ^ string_of_int (int_of_nat a) ^ " " ^ string_of_int (int_of_nat b)) g.edges)
+  | "S" :: h :: w :: sc :: hb :: vb :: _ ->
+      (* the executable specification on a pattern given as two bit strings ("-" = empty) *)
+      let bits s = if s = "-" then [] else List.init (String.length s) (fun i -> s.[i] = '1') in
+      let h = nat_of_int (int_of_string h) and w = nat_of_int (int_of_string w) in
+      let act = act_of_bits w (bits hb) (bits vb) in
+      let (p, q) = outputs_b h w act in
+      let show l = String.concat "" (List.map (fun b -> if b then "1" else "0") l) in
+      (if crossable_spec_b h w act (flag sc) then "1" else "0") ^ " " ^ show p ^ " " ^ show q
   | _ -> "EXN bad request"
 
 let () = main_loop handle
